@@ -116,12 +116,18 @@ fn append_child(content: String, child: String) -> Result<String> {
     let mut tokenizer = html::Tokenizer::new(buffer);
     let mut output = "".to_string();
     let mut level = 0;
+    let mut last_end_tag = None;
 
     loop {
         let token_type = tokenizer.next()?;
 
         if token_type == html::TokenType::ErrorToken {
-            return Ok(content);
+            // Elements left open (`<li>a<li>b`, `<p>one<p>two`) keep the level above 0: the content ends with
+            // the end tag of the element, the child goes in front of it
+            return Ok(match last_end_tag {
+                Some(position) => format!("{}{}{}", &output[..position], child, &content[position..]),
+                None => content,
+            });
         }
 
         if token_type == html::TokenType::StartTagToken {
@@ -134,6 +140,7 @@ fn append_child(content: String, child: String) -> Result<String> {
         }
 
         if token_type == html::TokenType::EndTagToken {
+            last_end_tag = Some(output.len());
             level -= 1;
 
             if level == 0 {
